@@ -146,7 +146,22 @@ def after_context_errors(types, text):
             raise _Leave()
     except _Leave:
         pass
-    return errs + _after_context_errors(types, text, 'exit by exception')
+    errs += _after_context_errors(types, text, 'exit by exception')
+    # the renderer's context may lie inside another renderer's: leaving it ends the recognition all the same
+    from mistletoe import HtmlRenderer
+    names = {t.__name__ for t in types}
+    with HtmlRenderer():
+        R = _renderer_for(types)
+        with R(*types):
+            Document(text)
+        stack = list(Document(text).children)
+        while stack:
+            t = stack.pop()
+            if type(t).__name__ in names:
+                errs.append('custom token %s recognised after its context was left (inside an enclosing context)' % type(t).__name__)
+            if t.children:
+                stack.extend(t.children)
+    return errs + _after_context_errors(types, text, 'exit of an enclosing context')
 
 
 def _after_context_errors(types, text, how):
